@@ -97,7 +97,7 @@ def start_mocking_observations(ctx, sym, mod):
         installs = [e for e in rec.named('mock_function') if e[1][:1] == ('input',)]
         started = [a for e in rec.named('_start_patches') for a in e[1]]
         yield '[print=%r]' % (print_setting,), {
-            'raised': raised, 'stack': stack, 'created': created, 'started': started,
+            'raised': raised, 'stack': stack, 'created': created, 'started': started, 'rec': rec, 'me': me,
             'installs_tracker': raised is None and len(installs) == 1 and len(installs[0][1]) >= 2
             and installs[0][1][1] is tracker and any(e[1][:1] == (context_inputs,)
                                                       for e in rec.named('_track_inputs')),
